@@ -153,6 +153,9 @@ mod opaque;
 mod pinned;
 #[cfg(test)]
 mod thread_safety_types;
+#[cfg(folo_verif)]
+#[doc(hidden)]
+pub mod verif;
 
 pub use blind::*;
 pub use builders::*;
